@@ -19,7 +19,7 @@ HARD_TIMEOUT = {'quick': 900, 'thorough': 3000}
 def cfg(tier):
     if tier == 'quick':
         return {'cases': [(3, 1, 2), (5, 2, 3), (7, 1, 3), (5, 1, 4), (3, 2, 4), (7, 2, 2), (5, 2, 1)], 'sample': [(5, 1, 5)], 'K': 2}
-    return {'cases': [(o, d, N) for o in (3, 5, 7) for d in (1, 2) for N in (1, 2, 3, 4)], 'sample': [(o, 1, N) for o in (3, 5, 7) for N in (5, 6)], 'K': 2}
+    return {'cases': [(o, d, N) for o in (3, 5, 7) for d in (1, 2) for N in (1, 2, 3, 4)] + [(5, 1, 5), (3, 1, 5)], 'sample': [(o, 1, N) for o in (3, 5, 7) for N in (5, 6)], 'K': 2}
 
 
 def bounds(tier):
